@@ -121,9 +121,9 @@ def gen_instance(rng, family):
             xs = [dy(rng, -2, 2) for _ in range(n)]
             resid = [Fr(0)] * n
             if family == "bounds":
-                kind = rng.choice(["interior", "face", "vertex", "weak"])
+                kind = rng.choice(["interior", "face", "vertex", "weak", "narrow"])
                 for i in range(n):
-                    act = {"interior": 0.0, "face": 0.4, "vertex": 1.0, "weak": 0.5}[str(kind)]
+                    act = {"interior": 0.0, "face": 0.4, "vertex": 1.0, "weak": 0.5, "narrow": 0.0}[str(kind)]
                     if rng.random() < act:
                         side = int(rng.choice([-1, 1]))
                         mag = Fr(0) if kind == "weak" and rng.random() < 0.5 else dy(rng, 0.125, 3)
@@ -138,6 +138,20 @@ def gen_instance(rng, family):
                         hi[i] = xs[i] + dy(rng, 0.125, 4) if rng.random() < 0.7 else None
                 if n >= 1 and kind in ("face", "vertex") and all(v == 0 for v in resid):
                     lo[0], resid[0] = xs[0], dy(rng, 0.125, 3)
+                if kind == "narrow":
+                    # a side narrower than twice the default initial radius, the minimiser strictly inside but close to one
+                    # face, the starting point beyond the OTHER face: the initial interpolation set has to be shrunk to fit
+                    # (seeded change C04-7: the cap of the initial radius lost its factor 0.5)
+                    i0 = int(rng.integers(n))
+                    w, gap = dy(rng, 1.0625, 1.875, 16), dy(rng, 0.0625, 0.25, 16)
+                    if rng.random() < 0.5:
+                        hi[i0] = xs[i0] + gap
+                        lo[i0] = hi[i0] - w
+                        narrow = (i0, float(lo[i0]) - float(10 ** rng.uniform(-1, 1.5)))
+                    else:
+                        lo[i0] = xs[i0] - gap
+                        hi[i0] = lo[i0] + w
+                        narrow = (i0, float(hi[i0]) + float(10 ** rng.uniform(-1, 1.5)))
                 inst["position"] = str(kind)
             if family == "equality":
                 me = int(rng.integers(1, n)) if n > 1 else 1
@@ -173,6 +187,8 @@ def gen_instance(rng, family):
     v /= np.linalg.norm(v)
     inst["x0"] = [float(a) + dist * float(b) for a, b in zip(xs, v)]
     inst["dist0"] = dist
+    if family == "bounds" and inst["position"] == "narrow":
+        inst["x0"][narrow[0]] = narrow[1]
     return inst
 
 
